@@ -202,12 +202,24 @@ def gen_case(rng: random.Random, pid: str, uid: str) -> dict:
             else:
                 acts.append(None)
         script[nm] = acts
+    always_disable = False
+    if auto and rng.random() < 0.2:
+        # done() followed at once by next_state_now(x): done() has the last word.  x is never a must_finish state - what a
+        # machine that was just told to stop owes a must_finish state is not in any statement
+        eff_mf = {n for n, d in effective_shape({"classes": classes, "final": classes[-1]["name"]}).items() if d.get("must_finish")}
+        targets = [n for n in names if n not in eff_mf]
+        for nm in names:
+            for i, a in enumerate(script[nm]):
+                if targets and a and a[0] == "done" and rng.random() < 0.7:
+                    script[nm][i] = ["done_now", rng.choice(targets), False]
+                    always_disable = True
     pre_nt = {}
     for s in states:
         if s["kind"] == "timed" and rng.random() < 0.08:
             pre_nt[s["name"]] = gen_dur() if not s["dur_int"] else rng.choice([0, 1000000, 2000000])
     return {"uid": uid, "pid": pid, "auto": auto, "grid": grid, "period": period, "classes": classes,
             "final": classes[-1]["name"], "script": script, "pre_nt": pre_nt, "sibling": (not auto) and rng.random() < 0.25,
+            "always_disable": always_disable,
             "hseed": rng.randrange(1 << 30), "ops": None}
 
 
@@ -276,6 +288,11 @@ def _vf_body(self, name, args):
         if k == "done":
             self._vf_log.append(("user_done", name))
             self.done()
+        elif k == "done_now":
+            # (C13 only) the state ends the machine and then asks for another state at once: done() has the last word
+            self._vf_log.append(("user_done", name))
+            self.done()
+            self.next_state_now(act[1])
         else:
             tgt = getattr(type(self), act[1]) if act[2] else act[1]
             if k == "next":
@@ -1162,7 +1179,7 @@ class AutoDriver:
                     return ops
             # a period always ends with on_disable() when the machine may still be running (on_enable() on a
             # running machine is outside the statement); after the end it is called most of the time
-            if not self.ended or rng.random() < 0.7:
+            if not self.ended or case.get("always_disable") or rng.random() < 0.7:
                 if not do(["on_disable"]):
                     return ops
             if not do(["adv", period * rng.choice([1, 5, 50])]):
